@@ -66,6 +66,7 @@ BLOCKS = {
     "rates": "RATES\n r1\n -start\n 10 SAVE PARM(1) * TIME * 3\n -end\nEND\n",
     "selout": "SELECTED_OUTPUT 1\n -reset false\n -high_precision true\n -state true\n -totals K Cl\n -molalities Na+ CaCO3\n -saturation_indices Calcite\nEND\n",
     "upunch": "USER_PUNCH 1\n -headings q n\n 10 PUT(GET(7) + 1, 7)\n 20 PUNCH TOT(\"Cl\") * 2, GET(7)\nEND\n",
+    "upunch3": "USER_PUNCH 1\n -headings x\n 10 PUNCH 1, TOT(\"Na\"), 3\nEND\n",        # more values than headings
     "selout2": "SELECTED_OUTPUT 2\n -high_precision true\n -totals Cl\nUSER_PUNCH 2\n -headings la\n 10 PUNCH LA(\"H+\")\nEND\n",
     "punchoff": "PRINT\n -selected_output false\nEND\n",
     "punchon": "PRINT\n -selected_output true\nEND\n",
@@ -75,11 +76,22 @@ BLOCKS = {
     "exch": "EXCHANGE 1\n X 0.01\n -equilibrate 1\nEND\n",
     "temp": "REACTION_TEMPERATURE 1\n 40\nEND\n",
     "copy": "COPY solution 2 5\nCOPY equilibrium_phases 1 5\nEND\n",
+    "surf": "SURFACE 1\n Hfo_wOH 1e-4 600 0.1\n -equilibrate 1\nEND\n",
+    "gas": "GAS_PHASE 1\n -fixed_pressure\n -pressure 1\n -volume 1\n CO2(g) 0.01\n N2(g) 0.99\nEND\n",
+    "selact": "SELECTED_OUTPUT 1\n -active false\nEND\n",
+    "transport": ("SOLUTION 0\n pH 7\n Na 5\n Cl 5 charge\nTRANSPORT\n -cells 2\n -shifts 2\n -lengths 0.1\n -time_step 10\n"
+                  " -dispersivities 0.01\n -punch_cells 1-2\n -print_cells 1\nEND\n"),
+    # inverse modelling between solutions 2 and 3 (mole balance: 1 mmol NaCl); its selected-output values are known to
+    # be appended to an unfinished table row (finding F3 of C05)
+    "inverse": ("SOLUTION 3\n pH 5\n K 2\n Na 1\n Cl 3 charge\nPHASES\nHalite\n NaCl = Na+ + Cl-\n log_k 1.582\n"
+                "INVERSE_MODELING 1\n -solutions 2 3\n -uncertainty 0.05\n -phases\n  Halite\n -balances\n  K 0.05\nEND\n"),
 }
-ORDER = ["react", "selout", "upunch", "punchoff", "punchon", "selout2", "knobs", "dbadd", "rates", "kin", "reaction", "incr",
-         "equil", "mix", "exch", "temp", "runcells", "copy", "advect"]
+ORDER = ["react", "selout", "upunch", "upunch3", "punchoff", "punchon", "selout2", "knobs", "dbadd", "rates", "kin", "reaction", "incr",
+         "equil", "mix", "exch", "temp", "runcells", "copy", "advect", "surf", "gas", "selact", "transport", "inverse"]
 CORE = ["react", "selout", "upunch", "punchoff", "selout2", "knobs", "dbadd", "rates", "kin", "runcells"]
-DEPTH = {"quick": {"full": 2}, "thorough": {"full": 2, "core": 3}}
+QUICK = [b for b in ORDER if b not in ("copy", "temp", "gas", "mix", "equil", "surf", "advect")]
+ALPHABETS = {"full": ORDER, "quick": QUICK, "core": CORE}
+DEPTH = {"quick": {"quick": 2}, "thorough": {"full": 2, "core": 3}}
 assert sorted(ORDER) == sorted(BLOCKS) and set(CORE) <= set(ORDER)
 
 
@@ -90,10 +102,8 @@ def assemble(seq):
 def sequences(tier):
     """Every block sequence of length 1..depth over the alphabet (shorter first, alphabet order)."""
     out, seen = [], set()
-    for name, depth in (("full", DEPTH[tier].get("full")), ("core", DEPTH[tier].get("core"))):
-        if not depth:
-            continue
-        alpha = ORDER if name == "full" else CORE
+    for name, depth in sorted(DEPTH[tier].items()):
+        alpha = ALPHABETS[name]
         for k in range(1, depth + 1):
             for s in itertools.product(alpha, repeat=k):
                 if s not in seen:
@@ -106,4 +116,4 @@ def sequences(tier):
 def describe():
     return {"setup_keywords": ["SOLUTION 1", "SOLUTION 2", "REACTION 1", "EQUILIBRIUM_PHASES 1", "RATES r1", "KINETICS 1",
                                "SELECTED_OUTPUT 1", "USER_PUNCH 1 (PUT/GET counter)"],
-            "blocks": ORDER, "core_blocks": CORE}
+            "blocks": ORDER, "core_blocks": CORE, "quick_blocks": QUICK}
